@@ -110,7 +110,9 @@ def keyfn(b):
 def run(tier):
     chk = Check(PROP, tier)
     chk.model("MC_Comb")
-    chk.exec_and_validate("T_EC", gen(chk, tier), keyfn, accel=True, families=("bits", "big"))
+    cmds_ = gen(chk, tier)
+    chk.exec_and_validate("T_EC", cmds_, keyfn, accel=True, families=("bits", "big"))
+    chk.first_use("T_EC", cmds_, keyfn, accel=True, families=("bits", "big"))
     return chk.finish(
         "model_checking",
         "model: at production parameters, for each of the four comb schemes every bit of the scalar is assigned exactly "
